@@ -110,6 +110,11 @@ pub struct Workload {
     /// where an entry point that also searches the program's own directory would find it
     #[serde(default)]
     pub beside_main: Vec<usize>,
+    /// another layout whose listing and compile run first, on the same thread of the same
+    /// process, without being judged: whatever they leave behind (a cache of resolved names,
+    /// of file contents) is history for the judged pair.  Both layouts use the same paths.
+    #[serde(default)]
+    pub prelude: Option<Box<Workload>>,
 }
 
 /// where the files of search directory `d` really live
@@ -443,6 +448,14 @@ fn gen_copies(rng: &mut Rng, ndirs: u8, allow_empty: bool) -> Vec<(u8, u8)> {
 }
 
 pub fn generate(rng: &mut Rng, thorough: bool) -> Workload {
+    let mut w = generate_layout(rng, thorough);
+    if rng.chance(1, 4) {
+        w.prelude = Some(Box::new(generate_layout(rng, thorough)));
+    }
+    w
+}
+
+fn generate_layout(rng: &mut Rng, thorough: bool) -> Workload {
     let ndirs = rng.range(1, 4) as u8;
     let mut search: Vec<u8> = (0..ndirs).collect();
     // shuffle
@@ -605,6 +618,7 @@ pub fn generate(rng: &mut Rng, thorough: bool) -> Workload {
         dir_forms: (0..ndirs)
             .map(|_| if rng.chance(1, 4) { rng.range(1, 3) as u8 } else { 0 })
             .collect(),
+        prelude: None,
         beside_main: if dotty && rng.chance(2, 3) {
             // names spelt relative to "here" get their decoy where "here" would be
             (0..incs_len).filter(|i| dotted[*i]).collect()
@@ -667,21 +681,46 @@ pub const OVERLAY: &str = "r/ov";
 
 fn actor_body(w: Workload) -> Box<dyn FnOnce(&Actor) + Send + 'static> {
     Box::new(move |actor: &Actor| {
+        if let Some(p) = w.prelude.as_ref() {
+            // run_one has laid out the prelude; its pair is history only
+            run_pair(actor, p, false);
+            let _g = seam::HarnessGuard::new();
+            setup_dir(&w);
+        }
+        run_pair(actor, &w, true);
+    })
+}
+
+/// one listing and one compile of layout `w` (already on disk); only a judged pair tells the
+/// policy where its phases begin and what it returned
+fn run_pair(actor: &Actor, w: &Workload, judged: bool) {
+    let label = |l: &'static str| -> &'static str {
+        if judged {
+            l
+        } else {
+            match l {
+                "list" => "pre-list",
+                "listed" => "pre-listed",
+                _ => "pre-compiled",
+            }
+        }
+    };
+    {
         use chialisp::classic::clvm_tools::clvmc;
         use chialisp::compiler::compiler::DefaultCompilerOpts;
         use chialisp::compiler::comptypes::CompilerOpts;
         use chialisp::compiler::preprocessor::gather_dependencies;
         use chialisp::compiler::sexp::decode_string;
-        let search: Vec<String> = w.search.iter().map(|d| search_dir(&w, *d)).collect();
+        let search: Vec<String> = w.search.iter().map(|d| search_dir(w, *d)).collect();
         let text = match fs::read_to_string(MAIN) {
             Ok(t) => t,
             Err(_) => {
-                actor.boundary("listed", "err:cannot read main");
-                actor.boundary("compiled", "err");
+                actor.boundary(label("listed"), "err:cannot read main");
+                actor.boundary(label("compiled"), "err");
                 return;
             }
         };
-        actor.boundary("list", "");
+        actor.boundary(label("list"), "");
         // entry 3: both steps through the command line front end (`run -M -i .. file`,
         // then `run -i .. file`), i.e. cmds::launch_tool with its own option handling
         let cli = |dash_m: bool| -> String {
@@ -748,7 +787,7 @@ fn actor_body(w: Workload) -> Box<dyn FnOnce(&Actor) + Send + 'static> {
                 Err(e) => format!("err:{}: {}", e.0, e.1),
             }
         };
-        actor.boundary("listed", &info);
+        actor.boundary(label("listed"), &info);
         let ok = match entry {
             4 => matches!(
                 crate::pybind::compile_clvm(MAIN, "r/out.hex", &search),
@@ -779,8 +818,8 @@ fn actor_body(w: Workload) -> Box<dyn FnOnce(&Actor) + Send + 'static> {
                     .is_ok()
             }
         };
-        actor.boundary("compiled", if ok { "ok" } else { "err" });
-    })
+        actor.boundary(label("compiled"), if ok { "ok" } else { "err" });
+    }
 }
 
 // ---------------------------------------------------------------------------------------
@@ -1065,7 +1104,10 @@ impl Policy for C18Policy {
 }
 
 pub fn run_one(w: &Workload, tape: &mut Tape, entropy_seed: u64) -> Result<RunReport, String> {
-    setup_dir(w);
+    match w.prelude.as_ref() {
+        Some(p) => setup_dir(p),
+        None => setup_dir(w),
+    }
     let world = seam::new_world(1, false, 1_000_000_000_000);
     let specs = vec![ActorSpec {
         name: "compiler".to_string(),
@@ -1305,6 +1347,11 @@ impl Prop for C18 {
         if !w.beside_main.is_empty() {
             let mut c = w.clone();
             c.beside_main.clear();
+            out.push(c);
+        }
+        if w.prelude.is_some() {
+            let mut c = w.clone();
+            c.prelude = None;
             out.push(c);
         }
         if w.entry != 0 {
